@@ -45,7 +45,12 @@ func c13Keys(r *gen.R, n int, strKeys bool) []ref.V {
 				pool[i] = fmt.Sprintf("s%03d", r.Intn(50))
 			}
 		} else {
-			switch r.Intn(4) {
+			switch r.Intn(5) {
+			case 4:
+				// neighbouring integers where binary floats are coarser than the integers (a
+				// comparison through float64 / float32 calls them equal)
+				base := gen.Pick(r, []int64{1 << 53, 1 << 62, 1<<63 - 9, -(1 << 63) + 9, 1 << 24, -(1 << 53), 3 << 52})
+				pool[i] = gen.IntV(base + int64(r.Intn(9)) - 4)
 			case 0:
 				base := gen.Pick(r, []string{"1", "2", "0", "-1", "100"})
 				pool[i] = gen.Num(gen.Pick(r, c13NumSpellings[base]))
